@@ -24,6 +24,10 @@ def sum_b64decode(it, st, args, node):
         s1.cons[t.k] = (('>=', 1),)
         it.store(s1, args[1].loc, args[1].path, t)
         it.rule.on_store(it, s1, args[1].loc, args[1].path, t, node)
+        if getattr(it.rule, 'track_declen', False):
+            d = dict(s1.ts.get('declen', {}))
+            d[o] = t.k
+            s1.ts['declen'] = d
     own_alloc(it, s1, 'jwt', Ref(o), node, 'jwt_base64uri_decode')
     s1.trace.append(('api', 'jwt_base64uri_decode', Ref(o), list(args), node_loc(node)))
     st.trace.append(('api', 'jwt_base64uri_decode', NULL, list(args), node_loc(node)))
